@@ -22,7 +22,8 @@ class C20(vlib.Spec):
     model_vo = ["theories/Partition/Rewrite.vo"]
     props_vo = "theories/Props/C20.vo"
     theorems = ["C20_remove_intermediate_contracts_partial", "C20_remove_intermediate_spec_partial",
-                "C20_eliminate_preserves_wiring", "C20_remove_module_boundary_preserves_wiring"]
+                "C20_eliminate_preserves_wiring", "C20_remove_module_boundary_preserves_wiring",
+                "C20_merge_modules_preserves_wiring"]
     crate, group, binary = "h_partition", "dfir", "h_partition"
     imports = ("From Coq Require Import List String NArith.\n"
                "From HV Require Import Partition.Base Partition.Model Partition.Rewrite.\n"
